@@ -52,6 +52,7 @@ DEFAULT_KNOBS = Knobs(
     hostile_strings=False,  # thorough: strings with interior full stop / quotes
     argparse_domain=False,  # restrict types to what argparse can express
     p_code_default=0.5,  # for types that admit a code default
+    p_hyphen_tokens=0.0,  # long prose carries free-standing '-' / '--' tokens and hyphenated words (wrap points of textwrap)
     p_doc_states_default=0.0,  # prose already carries its "Defaults to X" sentence (as the repository's canonical IR does)
 )
 
@@ -102,12 +103,13 @@ class IRGen:
         r = self.r
         tag = "zq_{}".format(name)
         if self.chance(self.k.p_long_doc):
-            return (
-                "the {} setting {} and also {}".format(
-                    tag, self._words(r.randint(12, 22)), self._words(r.randint(5, 12))
-                ),
-                "long",
-            )
+            text = "the {} setting {} and also {}".format(tag, self._words(r.randint(12, 22)), self._words(r.randint(5, 12)))
+            if self.k.p_hyphen_tokens and self.chance(self.k.p_hyphen_tokens):
+                ws = text.split(" ")
+                for at in sorted(r.sample(range(4, len(ws)), min(4, len(ws) - 4)), reverse=True):
+                    ws.insert(at, r.choice(["-", "--", "(lo - hi)", "pre- and", "well-known"]))
+                text = " ".join(ws)
+            return text, "long"
         if self.chance(self.k.p_hostile_doc):
             kind = r.choice(
                 [
